@@ -98,7 +98,7 @@ fn compare_all(ctx: &mut Ctx, id: usize, sc: &StreamCase, rs: &[EpRes], mode: &s
 
 pub fn gen_case(ctx: &mut Ctx, big: bool) -> StreamCase {
     let zlib = ctx.rng.chance(1, 2);
-    let cfg = GenCfg { max_tokens: if big { 3000 } else { *ctx.rng.pick(&[4usize, 30, 200, 600]) }, max_blocks: if big { 8 } else { 5 }, zlib, pre_len: 0, big };
+    let cfg = GenCfg { max_tokens: if big { 3000 } else { *ctx.rng.pick(&[4usize, 30, 200, 600]) }, max_blocks: if big { 8 } else { 5 }, zlib, pre_len: 0, big, heavy: ctx.rng.chance(1, 8) };
     let g = sgen::gen_stream(&mut ctx.rng, &cfg);
     for f in &g.features { let k = format!("feat_{}", f); ctx.count(&k); }
     StreamCase { z: g.bytes, zlib, tag: format!("valid:{}", g.features.join(",")), expect_len: g.plain.len(), prefix_of_valid: false, trail: 0 }
